@@ -9,7 +9,7 @@
   over-long lists (recursion): **`GenG.get = Model.get`** (`get_eq_model`; the recursion is `getF (fuel+1) = get_body (getF fuel)`
   on both sides with the same fuel `len(kwargs) + 3`, so the model's termination argument is the translation's).
 -/
-import PdbVerif.Proofs.GenGetH
+import PdbVerif.Proofs.GenGetT
 
 namespace Props.C17K2
 
@@ -49,6 +49,19 @@ theorem modelF_no_fuel : type_of% @GenGetProofs.modelF_no_fuel := @GenGetProofs.
 theorem need_le_fuel : type_of% @GenGetProofs.need_le_fuel := @GenGetProofs.need_le_fuel
 /-- **the recursion of the translated `get` through `self.get` never runs out**: `GenG.get ≠ .error .fuel`, every list length -/
 theorem get_no_fuel : type_of% @GenGetProofs.get_no_fuel := @GenGetProofs.get_no_fuel
+
+/-- the contract clause for the catalogue at the exact text the library emits: the table names in creation order, one row each -/
+theorem connExecute_master : type_of% @GenGetProofs.connExecute_master := @GenGetProofs.connExecute_master
+/-- **which tables there are, in which order**: the translated `_get_table_names` answers `db.tabs.map (·.name)` — creation order,
+    not alphabetical (`names[0]` is the first structure: what `get_colnames`, `__call__` and many2sql address) -/
+theorem get_table_names_eq : type_of% @GenGetProofs.get_table_names_eq := @GenGetProofs.get_table_names_eq
+
+/-- non-vacuity: three tables whose names are not in alphabetical order come back in creation order; a query over the catalogue
+    with an ORDER BY is given no meaning -/
+example : GenG._get_table_names { tabs := [⟨"s2".toList, []⟩, ⟨"ATOM".toList, []⟩, ⟨"mol_1".toList, []⟩] } =
+      .ok ["s2".toList, "ATOM".toList, "mol_1".toList] ∧
+    GenG.E.connExecute { tabs := [⟨"s2".toList, []⟩, ⟨"ATOM".toList, []⟩] } "SELECT name FROM sqlite_master WHERE type='table' ORDER BY name;".toList [] =
+      .error (.unmodelled "a query over sqlite_master other than the table-name query") := by decide +kernel
 
 /-- non-vacuity of `get_eq_model` on an over-long list: 951 rowID values (negated) and a second condition -/
 example : SqlProofs.PlainNames "rowID".toList "ATOM".toList [⟨"no_rowID".toList, .list ((List.range 951).map (fun n => Tbl.Val.int n))⟩, ⟨"name".toList, .scalar (.text "CA".toList)⟩] ∧
